@@ -374,8 +374,8 @@ theorem site_of_b (nd : f.allHandles.Nodup) (hgb : f.get? b = some t) {po : Nat}
 
 theorem mem_mid_of_ne {lo : List HTree} {t : HTree} {ro : List HTree} {z : Nat}
     (h : z ∈ handlesList (lo ++ t :: ro)) (hz : z ∉ handles t) : z ∈ handlesList (lo ++ ro) := by
-  rw [handlesList_append, handlesList_cons] at h
-  rw [handlesList_append]
+  rw [fs_handlesList_append, handlesList_cons] at h
+  rw [fs_handlesList_append]
   rcases List.mem_append.1 h with h1 | h1
   · exact List.mem_append_left _ h1
   · rcases List.mem_append.1 h1 with h2 | h2
@@ -449,7 +449,7 @@ theorem stage_far (inv : f.Inv) (ra : ReplArgs f a b q vq l A r t) {po : Nat} (h
   have hpot : po ∉ handles t := by
     intro hin
     apply hpoL
-    rw [handlesList_append, handlesList_cons]
+    rw [fs_handlesList_append, handlesList_cons]
     exact List.mem_append_right _ (List.mem_append_left _ hin)
   have hpoA : po ∉ handles A := by
     intro hin
